@@ -65,7 +65,11 @@ def gen_signature(rng, nchains=None, with_cal=None, anchor=None, rfc=None, time=
     if time is None:
         time = rng.choice([1136073600 + rng.randrange(0, 330000000), 1467331200 + rng.randrange(0, 300000000), 1467331199, 1467331200, rng.randrange(1, 2 ** 31)])
     if deprecated:
-        time = R.SHA1_DEPRECATED_FROM + rng.choice([0, 1, rng.randrange(0, 300000000)])
+        time = R.SHA1_DEPRECATED_FROM + rng.choice([0, 1, rng.randrange(0, 300000000), rng.randrange(0, 300000000)])
+        if rng.random() < 0.25:
+            # far beyond any date: on both sides of 2^63 and at the end of the 64-bit range (no calendar chain: no later publication time exists)
+            time = rng.choice([2 ** 63 - 1, 2 ** 63, 2 ** 63 + rng.randrange(1, 10 ** 9), 2 ** 64 - 1])
+            with_cal = False
         if deprecated.startswith('rfc'):
             rfc = True
         if deprecated == 'doc':
